@@ -44,7 +44,7 @@ def mutate(case, rnd):
     if not fields:
         return None
     kind = rnd.choice(["literal-kind", "var-type", "nullable-var", "unknown-field", "drop-required", "impossible-fragment", "leaf-selection", "no-selection",
-                       "unknown-arg", "null-literal"])
+                       "unknown-arg", "null-literal", "nullable-var-in-list"])
     with_args = [f for f in fields if f["args"]]
     if kind == "literal-kind" and with_args:
         f = rnd.choice(with_args)
@@ -91,6 +91,14 @@ def mutate(case, rnd):
     elif kind == "unknown-arg":
         f = rnd.choice(fields)
         f["args"] = [list(a) for a in f["args"]] + [["zzz", {"t": "i", "v": 1}]]
+    elif kind == "nullable-var-in-list":
+        sums = [f for f in fields if f["name"] == "sum"]
+        if not sums:
+            return None
+        f = rnd.choice(sums)
+        f["args"] = [["xs", {"t": "l", "v": [{"t": "i", "v": 1}, {"t": "var", "n": "vi"}]}]]
+        if not any(v["name"] == "vi" for v in doc["vardefs"]):
+            doc["vardefs"].append({"name": "vi", "type": ["N", "Int"], "hasDefault": False, "default": {"t": "null"}})
     elif kind == "null-literal":
         g = [f for f in fields if f["name"] == "g"]
         if not g:
